@@ -85,6 +85,23 @@ def realize(v):
     return v
 
 
+class concrete:
+    """`with concrete():` - run a block natively (no symbolic tracing).  Only for blocks whose inputs have all been
+    realised: the engine has already decided every symbolic choice, the block is ordinary concrete execution."""
+
+    def __enter__(self):
+        self._nt = None
+        if is_tracing():
+            self._nt = NoTracing()
+            self._nt.__enter__()
+        return self
+
+    def __exit__(self, *a):
+        if self._nt is not None:
+            return self._nt.__exit__(*a)
+        return False
+
+
 # ---------------------------------------------------------------------------------------------------
 # solver accounting: every z3.Solver.check() call is counted and timed
 # ---------------------------------------------------------------------------------------------------
